@@ -223,6 +223,7 @@ class BoundedPipelineUnit:
     every small training set and query vs. spec/nb.py"""
     kind = "bounded"
     name = "count_vectorizer+pipeline[bounded]"
+    qualnames = ["count_vectorizer.CountVectorizer._create_ngrams", "count_vectorizer.CountVectorizer._get_feature_counts", "count_vectorizer.CountVectorizer._build_vocabulary", "count_vectorizer.CountVectorizer._create_feature_matrix", "count_vectorizer.CountVectorizer.transform", "count_vectorizer.CountVectorizer.fit_transform", "pipeline.CTParsePipeline.fit", "pipeline.CTParsePipeline.predict_log_proba", "nb_scorer.train_naive_bayes", "nb_scorer.save_naive_bayes", "nb_scorer.NaiveBayesScorer.from_model_file", "nb_estimator.MultinomialNaiveBayes.fit", "nb_estimator.MultinomialNaiveBayes.predict_log_probability"]
     props = {"C16"}
     cost = 8
 
